@@ -174,9 +174,10 @@ def run(prop, seed, base_results=None, repo=None):
         _, base_results = run_property(prop, "quick", seed, repo=repo)
     base_keys = set(_keys(base_results))
     jobs = [(prop, seed, m, base_keys, repo) for m in specs]
-    nproc = min(16, max(1, len(jobs)))
-    with multiprocessing.Pool(nproc) as pool:
-        out = pool.map(_one, jobs)
+    from .parallel import pmap
+
+    res = pmap(_one, jobs, workers=min(16, max(1, len(jobs))), timeout=300, label=lambda j: j[2].name)
+    out = [((j[2].name, "broken", o[1], []) if (o and o[0] == "__error__") else o) for j, o in zip(jobs, res)]
     failed = [o for o in out if o[1] in ("FAILED", "broken")]
     summary = {
         "mutants": sum(1 for m in specs if not m.twin),
